@@ -60,6 +60,8 @@ type Config struct {
 	AuthCtor  string     // "" = operations are not secured
 	AuthRealm string
 	AuthAlts  []string // several alternatives (see Auth.Alts); empty: the single alternative {basic}
+	Methods   []string // methods every /r<i> path declares (default opMethods)
+	Extra     []string // further media types with a registered (recording) producer
 	NoDocs    bool     // serve through Context.RoutesHandler (no spec / docs middlewares in front)
 }
 
@@ -94,7 +96,12 @@ type payload struct{ A int }
 
 type customErr struct{ msg string }
 
-func (e *customErr) Error() string { return e.msg }
+func (e *customErr) Error() string {
+	if e == nil {
+		return "typed nil error"
+	}
+	return e.msg
+}
 
 type recProducer struct {
 	tag string
@@ -258,7 +265,11 @@ func loadDoc(cfg Config) (*loads.Document, []opReg) {
 			resp[c] = map[string]any{"description": "r" + c}
 		}
 		p := fmt.Sprintf("/r%d", i)
-		for _, m := range opMethods {
+		methods := cfg.Methods
+		if methods == nil {
+			methods = opMethods
+		}
+		for _, m := range methods {
 			sp.Ops = append(sp.Ops, apib.Op{Method: m, Path: p, Produces: opProduces, Security: sec, Responses: resp})
 			regs = append(regs, opReg{m, p})
 		}
@@ -285,7 +296,7 @@ func buildEnvWith(cfg Config, doc *loads.Document, regs []opReg) *env {
 	// the request side is not under test: keep the library's json consumer as default
 	api.DefaultConsumes = runtime.JSONMime
 	api.RegisterConsumer(runtime.JSONMime, runtime.JSONConsumer())
-	for _, mt := range e.mode.registered {
+	for _, mt := range append(append([]string(nil), e.mode.registered...), cfg.Extra...) {
 		p := &recProducer{tag: mt, e: e}
 		e.reg[mt] = p
 		api.RegisterProducer(mt, p)
@@ -387,6 +398,18 @@ func (e *env) handle() (interface{}, error) {
 	case "struct":
 		o.retVal = &payload{A: 1}
 	case "nil":
+	case "empty-string":
+		o.retVal = ""
+	case "zero":
+		o.retVal = 0
+	case "nil-slice":
+		o.retVal = []string(nil)
+	case "empty-slice":
+		o.retVal = []string{}
+	case "nil-pointer":
+		o.retVal = (*payload)(nil)
+	case "err-typed-nil":
+		o.retErr = (*customErr)(nil) // a non-nil error value holding a nil pointer
 	case "responder":
 		o.retVal = &recResponder{o}
 	case "responder-func":
@@ -422,19 +445,42 @@ type Range struct {
 	Q int    `json:"q"`
 }
 
-func renderAccept(rs []Range) string {
+func renderAccept(rs []Range) string { return renderAcceptStyle(rs, "") }
+
+// renderAcceptStyle spells the same abstract header differently: "" (", " and ";q=0.5"),
+// compact (no optional whitespace), spaced (blanks around ';' and ','), tab (TAB as the
+// optional whitespace), q3 (three fractional digits, q=1.000 written out).
+func renderAcceptStyle(rs []Range, style string) string {
+	semi, comma := ";", ", "
+	switch style {
+	case "", "q3":
+	case "compact":
+		comma = ","
+	case "spaced":
+		semi, comma = " ; ", " , "
+	case "tab":
+		semi, comma = ";\t", ",\t"
+	default:
+		panic("unknown Accept style " + style)
+	}
 	parts := make([]string, len(rs))
 	for i, r := range rs {
 		switch {
+		case r.Q >= 10 && style == "q3":
+			parts[i] = r.T + semi + "q=1.000"
 		case r.Q >= 10:
 			parts[i] = r.T
+		case r.Q <= 0 && style == "q3":
+			parts[i] = r.T + semi + "q=0.000"
 		case r.Q <= 0:
-			parts[i] = r.T + ";q=0"
+			parts[i] = r.T + semi + "q=0"
+		case style == "q3":
+			parts[i] = fmt.Sprintf("%s%sq=0.%d00", r.T, semi, r.Q)
 		default:
-			parts[i] = fmt.Sprintf("%s;q=0.%d", r.T, r.Q)
+			parts[i] = fmt.Sprintf("%s%sq=0.%d", r.T, semi, r.Q)
 		}
 	}
-	return strings.Join(parts, ", ")
+	return strings.Join(parts, comma)
 }
 
 // rawRequest renders the request the way a client would put it on the wire.
@@ -442,7 +488,7 @@ func rawRequest(c *Case, path string) string {
 	var b strings.Builder
 	fmt.Fprintf(&b, "%s /api%s HTTP/1.1\r\nHost: verif.test\r\n", c.Method, path)
 	if !c.NoAccept {
-		fmt.Fprintf(&b, "Accept: %s\r\n", renderAccept(c.Accept))
+		fmt.Fprintf(&b, "Accept: %s\r\n", renderAcceptStyle(c.Accept, c.AcceptStyle))
 	}
 	if c.Auth != nil && len(c.Auth.Alts) > 0 {
 		for i, a := range c.Auth.Alts {
@@ -466,6 +512,16 @@ func rawRequest(c *Case, path string) string {
 		case "none":
 		case "wrong":
 			b.WriteString("Authorization: Basic dTpiYWQ=\r\n") // u:bad
+		case "wrong-lowercase-scheme": // the scheme name is case-insensitive
+			b.WriteString("Authorization: basic dTpiYWQ=\r\n")
+		case "wrong-uppercase-scheme":
+			b.WriteString("Authorization: BASIC dTpiYWQ=\r\n")
+		case "wrong-empty-user": // ":" = empty user, empty password
+			b.WriteString("Authorization: Basic Og==\r\n")
+		case "wrong-colon-in-password": // u:ba:d
+			b.WriteString("Authorization: Basic dTpiYTpk\r\n")
+		case "wrong-non-ascii": // u-umlaut:pa-umlaut-ssword
+			b.WriteString("Authorization: Basic w7w6cMOkc3N3b3Jk\r\n")
 		case "right":
 			b.WriteString("Authorization: Basic dTpnb29k\r\n") // u:good
 		case "right-nil-principal":
